@@ -1,8 +1,9 @@
 (* Props/C17.v — The reported parameter list covers every variable a program can read. *)
 From Coq Require Import ZArith List Bool.
-From Rscel Require Import Base.Prims Model.Value Model.Ast Model.Compile Spec.FreeIdents.
-From Rscel Require Import Proofs.Params.
+From Rscel Require Import Base.Prims Model.Value Model.Funcs Model.Interp Model.Ast Model.Parser Model.Compile Spec.FreeIdents.
+From Rscel Require Import Proofs.Params Proofs.Relevance Proofs.Reads.
 Import ListNotations.
+Import Coq.Strings.String.StringSyntax.
 Open Scope Z_scope.
 
 (** The parameters collected while compiling an expression are exactly its
@@ -32,3 +33,42 @@ Proof.
   intros. unfold filter_params. rewrite filter_In, negb_true_iff. tauto.
 Qed.
 Print Assumptions C17_filter_exact.
+
+(** * Evaluation relevance.
+    The interpreter reads the bindings only through the identifiers its code can resolve (an identifier
+    pushed immediately before Access is a field name, one pushed immediately before Call is a callee:
+    neither is looked up among the variables).  Environments that agree on a set S of names - same
+    functions, same stored programs, same clock; variables equal on S - give the same outcome (value or
+    error, and call log) for every program all of whose resolvable identifiers are in S, at every fuel,
+    depth and resolve flag.  Every instruction, macro, nested run, stored program reached through a name
+    of S, value operator and built-in function is covered. *)
+Theorem C17_vm_reads_only_resolvable_identifiers : forall S fuel E E' c r d lg,
+  agree S E E' -> okc S c -> run fuel E c r d lg = run fuel E' c r d lg.
+Proof. exact vm_same_outcome. Qed.
+Print Assumptions C17_vm_reads_only_resolvable_identifiers.
+
+(** ... and every identifier a compiled program can resolve is one of its reported parameters or the name
+    of a built-in type: through all thirteen grammar levels, constant folding and compile-time evaluation
+    included (a folded constant holds no identifier that was not reported). *)
+Theorem C17_program_reads_only_its_params : forall fuel src p k,
+  compile_source fuel src = COk p k -> okc (inS (pr_params p)) (pr_code p).
+Proof. exact program_reads_only_its_params. Qed.
+Print Assumptions C17_program_reads_only_its_params.
+
+(** Together: two sets of bindings that agree on every reported name (and on variables named like a
+    built-in type) give the same result, whatever else they bind and whatever the fuel. *)
+Theorem C17_reported_params_decide_the_result : forall fuel src p k, compile_source fuel src = COk p k ->
+  forall ps ps' ufs now, pure_binds ps -> pure_binds ps' -> pure_ufuns ufs ->
+  (forall n, In n (pr_params p) \/ is_type_name n = true -> map_get ps n = map_get ps' n) ->
+  forall fuelr lg, run fuelr (env_of ps ufs now) (pr_code p) true O lg = run fuelr (env_of ps' ufs now) (pr_code p) true O lg.
+Proof. exact reported_params_decide_the_result. Qed.
+Print Assumptions C17_reported_params_decide_the_result.
+
+(** the premises are met: a program with a variable, a field name, a callee and a type pattern; its
+    parameters do not include the field name, and two binding sets that differ on it are related *)
+Example C17_relevance_somewhere :
+  match compile_source 40 #"match x.f { case int: size(y), case _: z }" with
+  | COk p _ => pr_params p
+  | _ => []
+  end = [#"size"; #"x"; #"y"; #"z"].
+Proof. vm_compute. reflexivity. Qed.
